@@ -354,3 +354,236 @@ Definition run_prep_prov (rp : option bool) (p : @prep Z) (prov : list (list (st
   preprocess_provenance Z zstr (list (string * Z)) zdump rp p prov.
 Definition run_split_prov (rp : option bool) (prov : list (list (string * Z))) :=
   split_provenance Z zstr (list (string * Z)) zdump rp prov.
+
+(* ------------------------------------------------------------------------- *)
+(** ** [EstimationMethod.get_modified_ts]   (core.py:200-255) as a function on a table model *)
+From TsdateV Require Import lib.Num.
+
+(** stable insertion sort by a boolean "less or equal": the order tskit's sort produces
+    for a key that ends in "original position" *)
+Section Sort.
+  Variable A : Type.
+  Variable le : A -> A -> bool.
+  Fixpoint insert (x : A) (l : list A) : list A :=
+    match l with
+    | [] => [x]
+    | y :: l' => if le x y then x :: l else y :: insert x l'
+    end.
+  Fixpoint isort (l : list A) : list A :=
+    match l with
+    | [] => []
+    | x :: l' => insert x (isort l')
+    end.
+End Sort.
+
+Section Modified.
+  Variable N : Num.
+  Notation T := (T N).
+  (** metadata vocabulary of Section Meta *)
+  Variable other schema byte : Type.
+  Variable decode : schema -> bytes byte -> dec T other.
+  Variable encode : schema -> row T other -> @enc byte.
+  Variable default_node_schema default_mutation_schema : schema.
+  (** contents tsdate never looks at *)
+  Variable state : Type.       (* ancestral / derived state strings *)
+  Variable site : Type.        (* a whole site row *)
+  Variable indiv pop rest : Type.   (* individual table, population table; everything else:
+                                       top-level metadata and schema, reference sequence,
+                                       schemas of the other tables *)
+  Variable tunits : Type.
+  (** provenance vocabulary of Section Prov *)
+  Variable pv : Type.
+  Variable pv_string : string -> pv.
+  Variable record : Type.
+  Variable dump : list (string * pv) -> option record.
+
+  Record node_row := mkNode { n_flags : Z; n_time : T; n_pop : Z; n_ind : Z; n_md : bytes byte }.
+  Record edge_row := mkEdge { e_left : T; e_right : T; e_parent : nat; e_child : nat; e_md : bytes byte }.
+  (** [m_time = None]: tskit.UNKNOWN_TIME; [m_parent = None]: tskit.NULL *)
+  Record mut_row := mkMut { m_site : nat; m_node : nat; m_time : option T; m_state : state;
+                            m_parent : option nat; m_md : bytes byte }.
+  Record mig_row := mkMig { g_left : T; g_right : T; g_node : nat; g_source : Z; g_dest : Z;
+                            g_time : T; g_md : bytes byte }.
+
+  Record tables := mkTables {
+    seq_len : T; time_units : tunits;
+    nodes : list node_row; node_schema : option schema;
+    edges : list edge_row;
+    sites : list site;
+    muts : list mut_row; mut_schema : option schema;
+    migs : list mig_row;
+    individuals : indiv; populations : pop;
+    provs : list record;
+    others : rest }.
+
+  (** [Results] (core.py:49-60) as far as get_modified_ts reads it; [None] = Python None *)
+  Record result := mkResult {
+    r_mean : list T; r_var : option (list T);
+    r_mut_mean : option (list T); r_mut_var : option (list T);
+    r_mut_node : list nat }.
+
+  (** the method object's attributes used here *)
+  Record config := mkConfig {
+    c_time_units : tunits; c_set_metadata : option bool;
+    c_name : string; c_prov_params : option (list (string * pv)) }.
+
+  (** [util.constrain_ages(ts, mean, min_branch_length, constr_iterations)] on the INPUT
+      edge order and sample flags; [None] = its assertion fails  (model/Constrain.v) *)
+  Variable constrain_ages : list (nat * nat) -> list bool -> list T -> option (list T).
+  (** tskit: [build_index; compute_mutation_parents; compute_mutation_times] on sorted tables.
+      Writes the parent and time columns and re-sorts the mutation rows when the new times
+      require it.  Arguments: new node times, sorted edges, mutation rows. *)
+  Variable finish_mutations : list T -> list edge_row -> list mut_row -> list mut_row.
+  (** [tables.tree_sequence()]: tskit's validation *)
+  Variable valid : tables -> bool.
+
+  Definition is_sample (r : node_row) : bool := Z.odd (n_flags r).     (* flags & NODE_IS_SAMPLE *)
+  Definition time_of (t : list T) (u : nat) : T := nth u t (zero N).
+
+  (** [tables.sort()] keys (tskit 1.0.3 documentation), ties keep table order *)
+  Definition edge_le (t : list T) (a b : edge_row) : bool :=
+    let ta := time_of t (e_parent a) in let tb := time_of t (e_parent b) in
+    if ltb N ta tb then true else if ltb N tb ta then false else
+    if Nat.ltb (e_parent a) (e_parent b) then true else if Nat.ltb (e_parent b) (e_parent a) then false else
+    if Nat.ltb (e_child a) (e_child b) then true else if Nat.ltb (e_child b) (e_child a) then false else
+    leb N (e_left a) (e_left b).
+  (** mutations with unknown time and no parent: site, then node time (older first), then node *)
+  Definition mut_le (t : list T) (a b : mut_row) : bool :=
+    if Nat.ltb (m_site a) (m_site b) then true else if Nat.ltb (m_site b) (m_site a) then false else
+    let ta := time_of t (m_node a) in let tb := time_of t (m_node b) in
+    if ltb N tb ta then true else if ltb N ta tb then false else
+    Nat.leb (m_node a) (m_node b).
+  Definition mig_le (a b : mig_row) : bool :=
+    if ltb N (g_time a) (g_time b) then true else if ltb N (g_time b) (g_time a) then false else
+    if Z.ltb (g_source a) (g_source b) then true else if Z.ltb (g_source b) (g_source a) then false else
+    if Z.ltb (g_dest a) (g_dest b) then true else if Z.ltb (g_dest b) (g_dest a) then false else
+    if ltb N (g_left a) (g_left b) then true else if ltb N (g_left b) (g_left a) then false else
+    Nat.leb (g_node a) (g_node b).
+
+  Fixpoint map3 {A B C D} (f : A -> B -> C -> D) (a : list A) (b : list B) (c : list C) : list D :=
+    match a, b, c with
+    | x :: a', y :: b', z :: c' => f x y z :: map3 f a' b' c'
+    | _, _, _ => []
+    end.
+
+  Definition opt_list {A} (o : option (list A)) : list A := match o with Some l => l | None => [] end.
+
+  Inductive failure := FailMetadata (e : exn) | FailConstrain | FailProvenance | FailInvalid.
+  Inductive modified := Modified (t : tables) (log : list event) | Failed (f : failure).
+
+  Definition get_modified (c : config) (tb : tables) (res : result) : modified :=
+    (* core.py:216-221: metadata first, from the UNconstrained means *)
+    match set_time_metadata T other schema byte decode encode (c_set_metadata c)
+            (mkMT (node_schema tb) (map n_md (nodes tb))) (r_mean res) (r_var res) default_node_schema with
+    | Raised e => Failed (FailMetadata e)
+    | Done nmt log1 =>
+    match set_time_metadata T other schema byte decode encode (c_set_metadata c)
+            (mkMT (mut_schema tb) (map m_md (muts tb))) (opt_list (r_mut_mean res)) (r_mut_var res)
+            default_mutation_schema with
+    | Raised e => Failed (FailMetadata e)
+    | Done mmt log2 =>
+    (* core.py:227-229 *)
+    match constrain_ages (map (fun e => (e_parent e, e_child e)) (edges tb)) (map is_sample (nodes tb))
+            (r_mean res) with
+    | None => Failed FailConstrain
+    | Some t' =>
+        let nodes' := map3 (fun r t md => mkNode (n_flags r) t (n_pop r) (n_ind r) md)
+                           (nodes tb) t' (mrows nmt) in
+        (* core.py:233-239: node switch, time and parent zapped *)
+        let muts1 := map3 (fun r u md => mkMut (m_site r) u None (m_state r) None md)
+                          (muts tb) (r_mut_node res) (mrows mmt) in
+        (* core.py:241 *)
+        let edges' := isort _ (edge_le t') (edges tb) in
+        let muts2 := isort _ (mut_le t') muts1 in
+        let migs' := isort _ mig_le (migs tb) in
+        (* core.py:242-245 *)
+        let muts3 := finish_mutations t' edges' muts2 in
+        (* core.py:250-254 *)
+        match (match c_prov_params c with
+               | None => Some (provs tb)
+               | Some p => record_provenance pv pv_string record dump (provs tb) (c_name c) p
+               end) with
+        | None => Failed FailProvenance
+        | Some provs' =>
+            let out := mkTables (seq_len tb) (c_time_units c) nodes' (mschema nmt) edges' (sites tb)
+                                muts3 (mschema mmt) migs' (individuals tb) (populations tb) provs'
+                                (others tb) in
+            (* core.py:255 *)
+            if valid out then Modified out (log1 ++ log2)%list else Failed FailInvalid
+        end
+    end end end.
+End Modified.
+
+Arguments mkNode {N byte}.
+Arguments mkEdge {N byte}.
+Arguments mkMut {N byte state}.
+Arguments mkMig {N byte}.
+Arguments mkTables {N schema byte state site indiv pop rest tunits record}.
+Arguments mkResult {N}.
+Arguments mkConfig {tunits pv}.
+Arguments seq_len {N schema byte state site indiv pop rest tunits record} t.
+Arguments time_units {N schema byte state site indiv pop rest tunits record} t.
+Arguments nodes {N schema byte state site indiv pop rest tunits record} t.
+Arguments node_schema {N schema byte state site indiv pop rest tunits record} t.
+Arguments edges {N schema byte state site indiv pop rest tunits record} t.
+Arguments sites {N schema byte state site indiv pop rest tunits record} t.
+Arguments muts {N schema byte state site indiv pop rest tunits record} t.
+Arguments mut_schema {N schema byte state site indiv pop rest tunits record} t.
+Arguments migs {N schema byte state site indiv pop rest tunits record} t.
+Arguments individuals {N schema byte state site indiv pop rest tunits record} t.
+Arguments populations {N schema byte state site indiv pop rest tunits record} t.
+Arguments provs {N schema byte state site indiv pop rest tunits record} t.
+Arguments others {N schema byte state site indiv pop rest tunits record} t.
+Arguments n_flags {N byte} n. Arguments n_time {N byte} n. Arguments n_pop {N byte} n.
+Arguments n_ind {N byte} n. Arguments n_md {N byte} n.
+Arguments e_left {N byte} e. Arguments e_right {N byte} e. Arguments e_parent {N byte} e.
+Arguments e_child {N byte} e. Arguments e_md {N byte} e.
+Arguments m_site {N byte state} m. Arguments m_node {N byte state} m. Arguments m_time {N byte state} m.
+Arguments m_state {N byte state} m. Arguments m_parent {N byte state} m. Arguments m_md {N byte state} m.
+Arguments g_left {N byte} m. Arguments g_right {N byte} m. Arguments g_node {N byte} m.
+Arguments g_source {N byte} m. Arguments g_dest {N byte} m. Arguments g_time {N byte} m. Arguments g_md {N byte} m.
+Arguments r_mean {N} r. Arguments r_var {N} r. Arguments r_mut_mean {N} r. Arguments r_mut_var {N} r.
+Arguments r_mut_node {N} r.
+Arguments c_time_units {tunits pv} c. Arguments c_set_metadata {tunits pv} c. Arguments c_name {tunits pv} c.
+Arguments c_prov_params {tunits pv} c.
+Arguments Modified {N schema byte state site indiv pop rest tunits record} t log.
+Arguments Failed {N schema byte state site indiv pop rest tunits record} f.
+
+(** harness instance of [get_modified]: doubles, tabulated codec (node table: default schema 0,
+    mutation table: default schema 10), interned states / sites / parameter values, row tags in
+    the edge and migration metadata and in the mutation state so that the row permutations can
+    be read off; tskit's part ([finish_mutations], [valid]) is applied by the harness to the
+    model's output *)
+From TsdateV Require Import model.Constrain.
+
+Definition ztables := @tables FNum Z Z Z Z unit unit unit Z (list (string * Z)).
+
+Definition show_failure (f : failure) : Z :=
+  match f with
+  | FailMetadata e => show_exn e
+  | FailConstrain => 10 | FailProvenance => 11 | FailInvalid => 12
+  end%Z.
+
+Definition run_get_modified (dt : dec_tab) (et : enc_tab) (eps : float) (k : nat)
+    (c : @config Z Z) (tb : ztables) (res : @result FNum) :=
+  match get_modified FNum Z Z Z (tab_decode dt) (tab_encode et) 0%Z 10%Z Z Z unit unit unit Z Z zstr
+          (list (string * Z)) zdump
+          (fun es fx t => constrain_list FNum eps fx k es t) (fun _ _ m => m) (fun _ => true) c tb res with
+  | Modified t log =>
+      (0%Z,
+       (time_units t, map n_time (nodes t), map n_md (nodes t), show_schema (node_schema t)),
+       (map e_md (edges t), map g_md (migs t)),
+       (map (fun m : mut_row FNum Z Z => (m_state m, m_node m, m_md m)) (muts t), show_schema (mut_schema t)),
+       (provs t, map show_event log))
+  | Failed f =>
+      (1%Z, (show_failure f, [], [], 0%Z), ([], []), ([], 0%Z), ([], []))
+  end.
+
+(** constructors at the harness instance *)
+Definition zNode := @mkNode FNum Z.
+Definition zEdge := @mkEdge FNum Z.
+Definition zMut := @mkMut FNum Z Z.
+Definition zMig := @mkMig FNum Z.
+Definition zTables := @mkTables FNum Z Z Z Z unit unit unit Z (list (string * Z)).
+Definition zResult := @mkResult FNum.
+Definition zConfig := @mkConfig Z Z.
